@@ -29,6 +29,13 @@ CHECKS = {
                      'ticks and deliveries; every emitted start request is judged against ground-truth process states, the '
                      'sender\'s earlier requests and the starting failure strategy',
                 note='2-3 programs per application, 2 applications, N=2 (3 in the thorough tier), bounds in the evidence'),
+    'C04': dict(engine='E1-cluster', category='model_checking', technique=E1, ref='DESIGN.md section 4, C04',
+                text='application / process starts are explored on 2-3 instances over 1-2 nodes (loads up to the cap, program '
+                     'knowledge, disabled programs, identifiers lists / aliases / nicks, restricted distributions, concurrent '
+                     'starts, re-identified instance); every emitted start request and every "No resource available" is judged '
+                     'against an independent eligibility and load computation',
+                note='pending load is bounded from below for requests and from above for the no-resource clause so that the '
+                     'oracle cannot raise a false alarm; sign rules (#, @) belong to C18'),
     'C07': dict(engine='E1-cluster', category='model_checking', technique=E1, ref='DESIGN.md section 4, C07',
                 text='every schedule of ticks, deliveries, crashes, restarts (also quicker than detection), isolations, '
                      'rejoins and directed stalls within the bounds is executed on the real cores; a monitor per (observer, '
